@@ -675,9 +675,9 @@ class SkyCoordTableCoordinate(BaseTableCoordinate):
             else:
                 mesh_output = self.mesh
 
-        # Build old array grids. Note self._slice give the slice item(s) required to
-        # make the underlying SkyCoord match the dimensionality of the associated data cube.
-        old_array_grids = [np.arange(d)[slc] for d, slc in zip(shape, self._slice)]
+        # Build old array grids: the array indices of the entries left by self._slice, which gives the
+        # slice item(s) required to make the underlying SkyCoord match the associated data cube.
+        old_array_grids = [np.arange(len(np.arange(d)[slc])) for d, slc in zip(shape, self._slice)]
         # Iterate through components and interpolate each.
         if self.mesh:
             new_components = [np.interp(new_grid, old_grid, comp, **kwargs)
